@@ -404,6 +404,7 @@ type Lemma struct {
 }
 
 type ContractSet struct {
+	Stable   map[string]string // stable package-level variable (pkgname.var) -> properties that rely on it
 	Contracts map[string]*Contract // pkgpath + "." + key
 	Externs   map[string]*Contract // callee full name
 	PureFuncs map[string]bool
@@ -518,7 +519,7 @@ func (cs *ContractSet) parseContractFile(path, pkgPath string) error {
 		rest = strings.TrimSpace(rest)
 		if curHook != nil {
 			switch word {
-			case "func", "extern", "hook", "lemma", "ghost", "hookset", "pure", "io", "nonnil", "purepkg", "import", "end":
+			case "func", "extern", "hook", "lemma", "ghost", "hookset", "pure", "io", "nonnil", "purepkg", "import", "end", "stable":
 				if err := flushHook(); err != nil {
 					return err
 				}
@@ -636,6 +637,20 @@ func (cs *ContractSet) parseContractFile(path, pkgPath string) error {
 				return fmt.Errorf("%s:%d: hook before|after", path, l.no)
 			}
 			curHook = h
+			cur, curLoop = nil, nil
+		case "stable":
+			// stable C05 C09: flagLiterals flagTiny -- package-level variables written only by
+			// flag parsing in init/main; no call forgets them (backed by ground:stable-<var>)
+			ps, vs, ok := strings.Cut(rest, ":")
+			if !ok {
+				return fmt.Errorf("%s:%d: stable <properties>: <variables>", path, l.no)
+			}
+			if cs.Stable == nil {
+				cs.Stable = map[string]string{}
+			}
+			for _, v := range strings.Fields(vs) {
+				cs.Stable[v] = strings.TrimSpace(ps)
+			}
 			cur, curLoop = nil, nil
 		case "lemma":
 			curLemma = &Lemma{Name: rest, Pkg: pkgPath, File: path, Line: l.no}
